@@ -77,8 +77,10 @@ class LitePreKeyStore(PreKeyStore):
         self.dbConn.commit()
 
     def loadMaxPreKeyId(self):
-        q = "SELECT max(prekey_id) FROM prekeys"
+        # the id generated last: once the numbering has wrapped around, the highest id is no longer the latest one,
+        # and numbering on from it would collide with the keys generated after the wrap
+        q = "SELECT prekey_id FROM prekeys ORDER BY _id DESC LIMIT 1"
         cursor = self.dbConn.cursor()
         cursor.execute(q)
         result = cursor.fetchone()
-        return 0 if result[0] is None else result[0]
+        return 0 if result is None or result[0] is None else result[0]
